@@ -406,6 +406,64 @@ func streams(r *rng, tier string) {
 			diffCase("diff.zerodict", mkDict(x), mkDict(y), 10, 0)
 		}
 	}
+	// 4c. elements that are == but that a program can tell apart (1 and 1.0, 2 and 2.0, 0.0 and -0.0, 0 and -0.0): all
+	//     tuples and lists of up to 3 (4 thorough) elements over {1, 1.0, 2, 2.0, 0.0, -0.0, "a"}, the old one against the
+	//     new one with each number in its other form, shortened, lengthened and as it is: the kept elements must be
+	//     the OLD value's, whichever side is longer (judged on the implementation; floats are not in the Lean model)
+	nums := []starlark.Value{starlark.MakeInt(1), starlark.Float(1), starlark.MakeInt(2), starlark.Float(2),
+		starlark.Float(0), starlark.Float(math.Copysign(0, -1)), starlark.String("a")}
+	twin := func(v starlark.Value) starlark.Value {
+		switch v := v.(type) {
+		case starlark.Int:
+			x, _ := starlark.AsFloat(v)
+			return starlark.Float(x)
+		case starlark.Float:
+			if v == 0 {
+				if math.Signbit(float64(v)) {
+					return starlark.Float(0)
+				}
+				return starlark.Float(math.Copysign(0, -1))
+			}
+			return starlark.MakeInt(int(v))
+		}
+		return v
+	}
+	maxN := 3
+	if thorough {
+		maxN = 4
+	}
+	var numSeqs [][]starlark.Value
+	var build func(prefix []starlark.Value)
+	build = func(prefix []starlark.Value) {
+		numSeqs = append(numSeqs, append([]starlark.Value(nil), prefix...))
+		if len(prefix) == maxN {
+			return
+		}
+		for _, x := range nums {
+			build(append(prefix, x))
+		}
+	}
+	build(nil)
+	for si, xs := range numSeqs {
+		tw := make([]starlark.Value, len(xs))
+		for i, x := range xs {
+			tw[i] = twin(x)
+		}
+		variants := [][]starlark.Value{tw, xs}
+		if len(tw) > 0 {
+			variants = append(variants, tw[:len(tw)-1], tw[1:], append(append([]starlark.Value(nil), tw...), starlark.String("z")),
+				append([]starlark.Value{starlark.String("z")}, tw...))
+		}
+		for vi, ys := range variants {
+			ka, kb := byte('t'), byte('t')
+			if (si+vi)%3 == 1 {
+				ka, kb = 'l', 'l'
+			} else if (si+vi)%3 == 2 {
+				kb = 'l'
+			}
+			diffCase("diff.numeric", mkSeq(ka, xs), mkSeq(kb, ys), 10, 0)
+		}
+	}
 	// 5. the depth limit: small depths against values of height 1..5
 	nDepth := 1500
 	if thorough {
